@@ -8,7 +8,7 @@
     on their domain, refuted beyond it (the C03/C04 findings), and checked on the implementation
     for every other statement kind by walking the image (Check/C03.v). *)
 From Coq Require Import List ZArith String Bool.
-From Gosk Require Import Base.Bytes Model.Ast Model.Eval Model.Asm Lemmas.C03Lemmas.
+From Gosk Require Import Base.Bytes Model.Ast Model.Eval Model.Asm Model.Encoder Lemmas.C03Lemmas Lemmas.C03General Lemmas.SweepLemmas Lemmas.MemSweepLemmas.
 Import ListNotations.
 Local Open Scope Z_scope.
 
@@ -45,3 +45,41 @@ Theorem C03_size_int : forall E m st dol len (s : p1state) v, 0 <= v <= 255 -> l
              /\ loc (do_int s [ENum v]) = loc s + zlen bs.
 Proof. exact size_int. Qed.
 Print Assumptions C03_size_int.
+
+
+(** General form, for ANY statement kinds: along every run in which each step advances LOC by exactly the number of
+    bytes codegen emits for the ocode it records ([sized]: the size-agreement premise, stated against the mode,
+    symbol table and origin codegen really runs with), LOC = origin + bytes emitted; hence every label is exact and
+    the image length is LOC - origin.  Instruction statements handled through the encoder satisfy [sized] whenever
+    estimate = emitted length ([C03_sized_instr]); that premise is then closed by computation on the sweep cells
+    ([C03_size_cells_*]: pass-1 LOC after the statement = emitted length, no diagnostic). *)
+Theorem C03_general_invariant : forall (E : encoder) m st dol s s', Inv2 E m st dol s -> run E m st dol s s' -> Inv2 E m st dol s'.
+Proof. exact inv2_run. Qed.
+Print Assumptions C03_general_invariant.
+
+Theorem C03_general_label_exact : forall (E : encoder) m st dol s0 s l, Inv2 E m st dol s0 -> run E m st dol s0 s ->
+  exists bs d, codegen E m st dol [] false (rev (ocodes s)) = GOk bs d
+               /\ lookup l (sym (set_sym s l (loc s))) = Some (dol + zlen bs).
+Proof. exact label_exact. Qed.
+
+Theorem C03_general_image_length : forall (E : encoder) m st dol s0 s, Inv2 E m st dol s0 -> run E m st dol s0 s ->
+  exists bs d, codegen E m st dol [] false (rev (ocodes s)) = GOk bs d /\ zlen bs = loc s - dol.
+Proof. exact image_length. Qed.
+Print Assumptions C03_general_image_length.
+
+Theorem C03_sized_instr : forall (E : encoder) m st dol s op ops n b,
+  enc_est E (bmode s) op ops = Some n -> enc_kind_ok E op = true ->
+  emitted E m st dol (OInstr op ops) (loc s - dol) = Some b -> zlen b = n ->
+  - 2 ^ 31 <= loc s + n < 2 ^ 31 ->
+  sized E m st dol s (push_ocode (add_loc (with_diag s (enc_diag E (bmode s) op ops)) n) (OInstr op ops)).
+Proof. exact sized_instr. Qed.
+
+(* size agreement by computation: memory operands of every shape (with the decoded meaning, see C01/C02) *)
+Theorem C03_size_cells_mem16 : forall c, In c sweep_mem16 -> ok013 c = true.
+Proof. apply forallb_forall. exact sweep_mem16_ok. Qed.
+Theorem C03_size_cells_mem32 : forall c, In c sweep_mem32 -> ok013 c = true.
+Proof. apply forallb_forall. exact sweep_mem32_ok. Qed.
+(* register, immediate, segment-register, stack and port cells *)
+Theorem C03_size_cells_reg : forall c, In c (sweep_rr ++ sweep_ri ++ sweep_sreg ++ sweep_stack ++ sweep_push_imm ++ sweep_port) -> ok03 c = true.
+Proof. apply forallb_forall. exact sweep_sizes_ok. Qed.
+Print Assumptions C03_size_cells_reg.
